@@ -150,7 +150,7 @@ func lvExchange(port int, segs [][]byte, pace, settle time.Duration, waitQuiet b
 	done := make(chan bool)
 	go func() {
 		buf := make([]byte, 1<<16)
-		c.SetReadDeadline(time.Now().Add(1500 * time.Millisecond))
+		c.SetReadDeadline(time.Now().Add(800 * time.Millisecond))
 		for {
 			n, err := c.Read(buf)
 			mu.Lock()
@@ -298,8 +298,10 @@ func runLiveHandover(r *hx.Result, cfg hx.Config, rng *rand.Rand) {
 
 	streams := lvDirected()
 	nRand := 6
-	if cfg.Tier == "thorough" || cfg.Search {
+	if cfg.Tier == "thorough" {
 		nRand = 60
+	} else if cfg.Search {
+		nRand = 24
 	}
 	for i := 0; i < nRand; i++ {
 		streams = append(streams, lvRandom(rng, i))
@@ -365,19 +367,28 @@ func runLiveHandover(r *hx.Result, cfg hx.Config, rng *rand.Rand) {
 		return v
 	}
 	fullRef := make([]string, len(streams))
-	for si, st := range streams {
-		var segs [][]byte
-		for _, it := range st.items {
-			segs = append(segs, it.wire)
+	{
+		fullRef2 := make([]string, len(streams))
+		var wg sync.WaitGroup
+		for si := range streams {
+			wg.Add(1)
+			go func(si int) {
+				defer wg.Done()
+				var segs [][]byte
+				for _, it := range streams[si].items {
+					segs = append(segs, it.wire)
+				}
+				fullRef[si], _ = lvExchange(s.Port, segs, 12*time.Millisecond, 12*time.Millisecond, true)
+				fullRef2[si], _ = lvExchange(s.Port, segs, 25*time.Millisecond, 25*time.Millisecond, true)
+			}(si)
 		}
-		a, _ := lvExchange(s.Port, segs, 12*time.Millisecond, 12*time.Millisecond, true)
-		b, _ := lvExchange(s.Port, segs, 25*time.Millisecond, 25*time.Millisecond, true)
-		if a != b {
-			r.Fail(hx.Failure{Kind: "oracle", Signature: "bb-live-reference-unstable", What: "the same stream sent twice, one command per segment, got two different reply streams", Case: st.String(), Impl: strconv.Quote(a), Model: strconv.Quote(b)})
+		wg.Wait()
+		for si, st := range streams {
+			if fullRef[si] != fullRef2[si] {
+				r.Fail(hx.Failure{Kind: "oracle", Signature: "bb-live-reference-unstable", What: "the same stream sent twice, one command per segment, got two different reply streams", Case: st.String(), Impl: strconv.Quote(fullRef[si]), Model: strconv.Quote(fullRef2[si])})
+			}
 		}
-		fullRef[si] = a
 	}
-
 	segsOf := func(j job) [][]byte { return cutAt(streams[j.si].bytes(), j.offs) }
 	paceOf := func(j job, slow int) (time.Duration, time.Duration) {
 		pace := 3 * time.Millisecond
@@ -386,24 +397,28 @@ func runLiveHandover(r *hx.Result, cfg hx.Config, rng *rand.Rand) {
 		}
 		return pace * time.Duration(slow), 15 * time.Millisecond * time.Duration(slow)
 	}
-	// the exchanges, in parallel (each on a connection of its own; the streams do not write data)
-	var wg sync.WaitGroup
-	ch := make(chan int)
-	for w := 0; w < 12; w++ {
-		wg.Add(1)
-		go func() {
-			defer wg.Done()
-			for ji := range ch {
-				pace, settle := paceOf(jobs[ji], 1)
-				jobs[ji].got, _ = lvExchange(s.Port, segsOf(jobs[ji]), pace, settle, false)
+	// the exchanges of one stream, in parallel (each on a connection of its own; the streams do not write data)
+	exchangeStream := func(si int) {
+		var wg sync.WaitGroup
+		ch := make(chan int)
+		for w := 0; w < 16; w++ {
+			wg.Add(1)
+			go func() {
+				defer wg.Done()
+				for ji := range ch {
+					pace, settle := paceOf(jobs[ji], 1)
+					jobs[ji].got, _ = lvExchange(s.Port, segsOf(jobs[ji]), pace, settle, false)
+				}
+			}()
+		}
+		for ji := range jobs {
+			if jobs[ji].si == si {
+				ch <- ji
 			}
-		}()
+		}
+		close(ch)
+		wg.Wait()
 	}
-	for ji := range jobs {
-		ch <- ji
-	}
-	close(ch)
-	wg.Wait()
 
 	ncmdOf := func(st lvStream) int {
 		n := 1 // the terminator
@@ -436,9 +451,18 @@ func runLiveHandover(r *hx.Result, cfg hx.Config, rng *rand.Rand) {
 		return lvPred{}, false
 	}
 	known := map[string]int{}
+	unexplained, lastSi := 0, -1
 	for ji := range jobs {
 		j := &jobs[ji]
 		st := streams[j.si]
+		if unexplained >= 4 { // enough failing inputs: the rest of the sweep would only repeat them
+			r.Extra["live_handover_stopped_at_job"] = ji
+			break
+		}
+		if j.si != lastSi {
+			exchangeStream(j.si)
+			lastSi = j.si
+		}
 		segs := segsOf(*j)
 		inside := false // a cut strictly inside a command at or after the live command
 		{
@@ -487,9 +511,11 @@ func runLiveHandover(r *hx.Result, cfg hx.Config, rng *rand.Rand) {
 			r.Fail(hx.Failure{Kind: "oracle", Signature: sig, What: what,
 				Case: map[string]interface{}{"stream": st.String(), "bytes": q(st.bytes()), "cuts": j.offs, "handled": pred.handled}, Impl: strconv.Quote(j.got), Model: strconv.Quote(fullRef[j.si])})
 		default:
+			unexplained++
 			exact, _ := lvParse(ask("100", append(append([][]byte{}, segs...), lvTerminator.wire)), ncmdOf(st))
 			r.Fail(hx.Failure{Kind: "oracle", Signature: "bb-live-segmentation-replies",
-				What: "across the hand-over to live mode the reply byte stream depends on where the request stream was cut: it is neither the reply stream of the same bytes sent one command per segment nor what the pinned model explains by commands left unhandled",
+				What: fmt.Sprintf("stream %s cut at %v (%s): replies %s, but %s when sent one command per segment — across the hand-over to live mode the reply bytes depend on where the request stream was cut (not explained by the commands the pinned model leaves unhandled)",
+					q(st.bytes()), j.offs, j.kind, strconv.Quote(j.got), strconv.Quote(fullRef[j.si])),
 				Case: map[string]interface{}{"stream": st.String(), "bytes": q(st.bytes()), "cuts": j.offs, "kind": j.kind, "model_handled": exact.handled},
 				Impl: strconv.Quote(j.got), Model: strconv.Quote(fullRef[j.si])})
 		}
